@@ -88,10 +88,10 @@ def _sizes(lo, hi):
     return [(n, m) for n in range(lo, hi + 1) for m in range(lo, hi + 1)]
 
 
-_SNAKE_QUICK = ['snake_basic_%d_%d' % p for p in _sizes(1, 3)]
+_SNAKE_QUICK = ['snake_basic_%d_%d' % p for p in _sizes(1, 3)] + ['snake_bigv_2_2', 'snake_stale_2_2']
 _SNAKE_THOROUGH = (['snake_full_%d_%d' % p for p in _sizes(1, 4)]
                    + ['snake_basic_5_5', 'snake_basic_2_5', 'snake_basic_5_2',
-                      'snake_bigv_2_2', 'snake_bigv_3_2', 'snake_stale_2_2', 'snake_stale_3_3'])
+                      'snake_bigv_3_2', 'snake_stale_3_3'])
 
 REGISTRY = {
     'snake': {
@@ -99,7 +99,8 @@ REGISTRY = {
         'file': 'snake.rs', 'inject': 'src/algorithms/myers.rs', 'module': 'algorithms::myers::verif_harness',
         'harnesses': {'quick': _SNAKE_QUICK, 'thorough': _SNAKE_THOROUGH},
         'bound': {
-            'quick': 'find_middle_snake on the real code, one harness per concrete box size (n,m), all 1<=n,m<=3 (9 harnesses); '
+            'quick': 'find_middle_snake on the real code, one harness per concrete box size (n,m), all 1<=n,m<=3 (9 harnesses) plus 2x2 with '
+                     'V made for a larger outer box (max_d(n+3,m+2)), once zeroed and once with arbitrary stale cell contents; '
                      'contents symbolic over a 3-symbol alphabet; box at offsets 1 (old) / 2 (new) inside slices of length n+2 / m+3 '
                      'with symbolic padding; vf, vb = V::new(max_d(n,m)); deadline None.  Clauses: (i) no panic/overflow/out-of-bounds, '
                      '(ii) Some((x,y)) inside the closed box, (iii) first and last pair differ => split is not a corner, '
@@ -107,8 +108,8 @@ REGISTRY = {
                      'expired-deadline clause (Instant cannot be built symbolically), boxes larger than 3x3, alphabets > 3.',
             'thorough': 'find_middle_snake on the real code, one harness per concrete box size: clauses (i)-(vi) incl. (v) '
                         'lcs(box) == lcs(left) + lcs(right) against an in-harness DP for all 1<=n,m<=4 (16 harnesses); clauses (i)-(iv),(vi) '
-                        'for 5x5, 2x5, 5x2; V made for a larger outer box (max_d(n+3,m+2)) for 2x2, 3x2; the same with arbitrary stale '
-                        'cell contents in vf/vb for 2x2, 3x3.  Contents symbolic over 3 symbols, box at non-zero offsets, deadline None.  '
+                        'for 5x5, 2x5, 5x2; V made for a larger outer box (max_d(n+3,m+2)) for 3x2; the same with arbitrary stale '
+                        'cell contents in vf/vb for 3x3.  Contents symbolic over 3 symbols, box at non-zero offsets, deadline None.  '
                         'NOT covered: expired-deadline clause, larger boxes, alphabets > 3.',
         },
         'harness_timeout_s': {'quick': 200, 'thorough': 1500},
@@ -334,7 +335,8 @@ def _playback_values(out):
     res = {}
     for m in re.finditer(r'Concrete playback unit test for `([^`]+)`:\s*```(.*?)```', out, re.S):
         vals = re.findall(r'^\s*// (.+)$', m.group(2), re.M)
-        res[m.group(1)] = [v.strip() for v in vals]
+        chk = re.search(r'/// Check for `[^`]*`: "*([^"\n]*)', m.group(2))
+        res.setdefault(m.group(1), []).append((chk.group(1).strip() if chk else '', [v.strip() for v in vals]))
     return res
 
 
@@ -392,8 +394,13 @@ def run(spec, tier='quick'):
                 return res
             with open(os.path.join(KANI_DIR, s['file'])) as f:
                 text = f.read()
+            with open(owner) as f:
+                own_lines = f.read().count('\n')
             with open(owner, 'a') as f:
                 f.write('\n' + text)
+            # a reported line L > own_lines of `inject` is line L - own_lines - 1 of kani/<file>
+            res['line_map'] = '%s: lines 1..%d are the real file, line L beyond that is kani/%s line L-%d' % (
+                s['inject'], own_lines, s['file'], own_lines + 1)
 
         # 3. one cargo kani run
         jobs = max(1, min(int(s.get('jobs', MAX_JOBS)), MAX_JOBS, len(harnesses)))
@@ -470,8 +477,9 @@ def run(spec, tier='quick'):
                 peak = max(peak, r2.peak_rss_kb)
                 vals = _playback_values(r2.out)
                 parts = []
-                for h, v in vals.items():
-                    parts.append('%s: [%s]' % (h.split('::')[-1], ', '.join(_fmt_val(z) for z in v)))
+                for h, tests in vals.items():
+                    for chk, v in tests[:3]:
+                        parts.append('%s (violates "%s"): [%s]' % (h.split('::')[-1], chk, ', '.join(_fmt_val(z) for z in v)))
                 if parts:
                     wit = '; '.join(parts)
                     if s.get('witness_layout'):
